@@ -687,6 +687,130 @@ def write_stream(ctx):
             ctx.disagree("write-path", dict(case, request=reqs[i]), model[i], impl)
 
 
+def snapshot(root):
+    """{relative path: (kind, mode)} of everything under root (symlinks not followed)"""
+    out = {}
+    for dp, dns, fns in os.walk(root):
+        for n in dns + fns:
+            pth = os.path.join(dp, n)
+            st = os.lstat(pth)
+            kind = "link" if stat.S_ISLNK(st.st_mode) else "dir" if stat.S_ISDIR(st.st_mode) else "file"
+            out[os.path.relpath(pth, root)] = (kind, stat.S_IMODE(st.st_mode))
+    return out
+
+
+def dest_stream(ctx):
+    """file-creation oracle over destination states x umasks: after write_private_key_file, whatever happened
+    (success or any exception), every regular file that did not exist before is private to the owner, and a missing
+    directory is not conjured up; outcome and mode are compared with the model's openDest"""
+    import paramiko
+
+    rng = ctx.rng
+    keys = [("rsa", paramiko.RSAKey(key=lk.gen_crypto_key("rsa", 1024))),
+            ("ec", paramiko.ECDSAKey.generate(bits=256))]
+    states = ["missing", "existing:644", "existing:600", "existing:666", "existing:400", "missingparent", "missingparent2",
+              "dangling", "symlink:644", "symlink:600", "directory"]
+    if os.geteuid() != 0:
+        states.append("readonlydir")
+    umasks = [0o000, 0o022, 0o077, 0o027, 0o002]
+    tmp = tempfile.mkdtemp(prefix="pv-c36d-")
+    reqs, cases = [], []
+    try:
+        n = 0
+        for kind, key in keys:
+            for st_name in states:
+                for um in umasks:
+                    for pw in (None, "pw") if (um in (0o022, 0o000)) else (rng.choice([None, "pw", b"pw"]),):
+                        n += 1
+                        root = os.path.join(tmp, "c%d" % n)
+                        os.mkdir(root)
+                        target = os.path.join(root, "key")
+                        base, arg = (st_name.split(":") + [None])[:2]
+                        if base == "existing":
+                            with open(target, "w") as f:
+                                f.write("old" * 500)
+                            os.chmod(target, int(arg, 8))
+                        elif base == "missingparent":
+                            target = os.path.join(root, "nodir", "key")
+                        elif base == "missingparent2":
+                            target = os.path.join(root, "a", "b", "key")
+                        elif base == "dangling":
+                            os.symlink(os.path.join(root, "real-target"), target)
+                        elif base == "symlink":
+                            with open(os.path.join(root, "real-target"), "w") as f:
+                                f.write("old")
+                            os.chmod(os.path.join(root, "real-target"), int(arg, 8))
+                            os.symlink(os.path.join(root, "real-target"), target)
+                        elif base == "directory":
+                            os.mkdir(target)
+                        elif base == "readonlydir":
+                            os.chmod(root, 0o500)
+                        before = snapshot(root)
+                        old = os.umask(um)
+                        try:
+                            key.write_private_key_file(target, password=pw)
+                            outcome = "ok"
+                        except Exception as e:  # noqa: BLE001
+                            outcome = "exc " + type(e).__name__
+                        finally:
+                            os.umask(old)
+                        if base == "readonlydir":
+                            os.chmod(root, 0o700)
+                        after = snapshot(root)
+                        case = {"class": kind, "destination": st_name, "umask": oct(um), "passphrase": repr(pw),
+                                "outcome": outcome, "before": {k: [v[0], oct(v[1])] for k, v in before.items()},
+                                "after": {k: [v[0], oct(v[1])] for k, v in after.items()}}
+                        ctx.case(("dest", kind, st_name, um, repr(pw)), True)
+                        ctx.dist("dest:%s:%s" % (base, outcome))
+                        new = {k: v for k, v in after.items() if k not in before}
+                        for rel, (fk, mode) in new.items():
+                            if fk == "file" and mode & 0o077:
+                                ctx.fail("file-mode:new", case, "%s was created with mode %o (group/other bits) - outcome %s"
+                                         % (rel, mode, outcome))
+                            if fk == "dir":
+                                ctx.fail("directory-created", case, "write_private_key_file created the directory %s (mode %o)" % (rel, mode))
+                        for rel, (fk, mode) in before.items():
+                            if rel in after and fk == "file" and after[rel][1] != mode:
+                                ctx.fail("file-mode:existing-changed", case, "%s changed mode %o -> %o" % (rel, mode, after[rel][1]))
+                        if base in ("readonlydir",):
+                            continue
+                        # canonical outcome for the model
+                        written = {"missing": "key", "existing": "key", "dangling": "real-target", "symlink": "real-target"}.get(base)
+                        if outcome == "ok" and written in after:
+                            impl = "ok %o %s" % (after[written][1], "created" if written not in before else "kept")
+                        else:
+                            impl = outcome
+                        reqs.append("dest %s %o" % ({"missingparent2": "missingparent"}.get(st_name, st_name), um))
+                        cases.append((case, impl))
+    finally:
+        shutil.rmtree(tmp, ignore_errors=True)
+    model = ctx.driver("C36", reqs)
+    for i, (case, impl) in enumerate(cases):
+        if model is not None and model[i] != impl:
+            ctx.disagree("write-destination", dict(case, request=reqs[i]), model[i], impl)
+
+
+def source_facts(ctx):
+    """generated fact (AST of the bound repo's pkey.py): every os.open call passes the mode o600 - there is exactly
+    the one call of the model's openDest"""
+    import ast
+    from pv.core import REPO
+
+    src = open(os.path.join(REPO, "paramiko", "pkey.py")).read()
+    calls = []
+    for node in ast.walk(ast.parse(src)):
+        if isinstance(node, ast.Call) and isinstance(node.func, ast.Attribute) and node.func.attr == "open" \
+                and isinstance(node.func.value, ast.Name) and node.func.value.id == "os":
+            mode = next((k.value for k in node.keywords if k.arg == "mode"), node.args[2] if len(node.args) > 2 else None)
+            calls.append((node.lineno, ast.unparse(mode) if mode is not None else None))
+    ctx.case(("source-fact", "os.open"), True)
+    ctx.extra["os_open_calls_in_pkey"] = calls
+    want = [m for _l, m in calls]
+    if want != ["o600"]:
+        ctx.disagree("source fact: os.open calls in pkey.py and their mode argument", {"calls": calls},
+                     "one call, mode=o600", repr(calls))
+
+
 def _is_utf8(b):
     try:
         b.decode("utf-8")
@@ -711,8 +835,10 @@ def run(ctx):
     ctx.build()
     codec_stream(ctx)
     identity_stream(ctx)
+    source_facts(ctx)
     private_stream(ctx)
     write_stream(ctx)
+    dest_stream(ctx)
 
 
 META = {
@@ -723,8 +849,14 @@ META = {
               "never matter); equal keys have equal blobs and fingerprints and different material gives different blobs; a "
               "key file created by _write_private_key_file has mode 0600 & ~umask, i.e. no group/other bits for every umask. "
               "The codecs/identity/mode model is tied to pkey.py/rsakey.py/ecdsakey.py/ed25519key.py by differential runs with "
-              "the third-party constructor calls recorded from the real run. NOT proved (oracle only, on the real code): "
-              "private key write -> load round trip, passphrase protection (needs cryptography's serialisation), digests."),
+              "the third-party constructor calls recorded from the real run. The write path is modelled as far as it is paramiko's: "
+              "which private_bytes call is made for None / empty / bytes / str / other passphrases (NoEncryption iff no "
+              "passphrase; a passphrase is passed as exactly its bytes or its UTF-8 encoding; empty -> ValueError, other types "
+              "-> TypeError, Ed25519 -> not implemented), that the target is opened (created/truncated, private mode) before "
+              "anything else, and what the single os.open does per destination state (missing / existing / missing directory / "
+              "dangling symlink / symlink / directory): a created file is always private, a missing directory creates nothing "
+              "(also checked as a source fact: one os.open in pkey.py, mode=o600). NOT proved (oracle only, on the real code): "
+              "that cryptography's serialisation round-trips and protects with the passphrase; the digests."),
     "note": ("Trusted: Lean kernel + 3 axioms; cryptography/nacl constructors (as recorded tables), cryptography's private key "
              "(de)serialisation and PEM encryption; hashlib; POSIX open(2) semantics for O_CREAT with a mode and a umask. "
              "Writing with the empty passphrase is refused by cryptography (ValueError) and is not covered by the statement; "
